@@ -12,7 +12,8 @@
      TailJump            right after the relocated prefix a jump lands on origin + n, n = the first instruction
                          boundary >= 13 that is not followed by RET (so a wrong copied boundary shows here)
      RefuseClean         a refusal leaves the placeholder untouched
-     NoBranchIntoPrefix  no PC-relative branch of the function targets (0, n)
+     NoBranchIntoEntry   no PC-relative branch of the part that is NOT copied targets the bytes (0, 13) that the entry
+                         jump overwrites; branches between copied instructions must land on the image of their target
    plus the structural marker BackBranch (a branch to offset 0 = the patched entry; finding F5). *)
 EXTENDS X86Format, TLC, Json, FiniteSets
 CONSTANT TraceFile
@@ -44,29 +45,44 @@ Copied(ins) == LET K == {k \in 1..Len(ins) : ins[k].p >= 13 /\ ~ins[k].ret} IN
 IsBranch(i) == i.cls \in {"jmp", "jcc", "call"} \/ i.rel = 1
 Widen(op) == IF op = 235 THEN <<233>> ELSE IF op \in 112..127 THEN <<15, op + 16>> ELSE <<>>
 
-\* walk the copied prefix against the output; "ok" or the violated predicate
-RECURSIVE Walk(_, _, _, _, _, _, _)
-Walk(fn, out, ins, k, n, q, d) ==
-   IF k > Len(ins) \/ ins[k].p >= n THEN <<"end", q>>
+\* Stage 1: lay the copied instructions out over the bytes read back: for instruction k its original offset p, its
+\* offset q in the placeholder and the decoded output instruction (PC-relative ones may have been widened).
+RECURSIVE Lay(_, _, _, _, _, _)
+Lay(out, ins, k, n, q, acc) ==
+   IF k > Len(ins) \/ ins[k].p >= n THEN [err |-> "", lay |-> acc, qend |-> q]
    ELSE LET i == ins[k] IN
      IF i.rel = 0 THEN
-        IF q + i.len <= Len(out) /\ SubSeq(out, q + 1, q + i.len) = SubSeq(fn, i.p + 1, i.p + i.len)
-        THEN Walk(fn, out, ins, k + 1, n, q + i.len, d) ELSE <<"V:copied-bytes-differ", q>>
+        IF q + i.len <= Len(out) THEN Lay(out, ins, k + 1, n, q + i.len, Append(acc, [p |-> i.p, q |-> q, olen |-> i.len, orel |-> 0, ooff |-> 0]))
+        ELSE [err |-> "V:output-truncated", lay |-> acc, qend |-> q]
      ELSE LET w == SubSeq(out, q + 1, Min(q + 15, Len(out))) IN
-          IF Len(w) = 0 THEN <<"V:output-truncated", q>> ELSE
+          IF Len(w) = 0 THEN [err |-> "V:output-truncated", lay |-> acc, qend |-> q] ELSE
           LET o == Decode(w, Len(w)) IN
-          IF ~o.ok \/ o.rel = 0 THEN <<"V:output-not-decodable", q>> ELSE
-          LET s == RelVal(w, o.off + 1, o.rel) IN
+          IF ~o.ok \/ o.rel = 0 THEN [err |-> "V:output-not-decodable", lay |-> acc, qend |-> q]
+          ELSE Lay(out, ins, k + 1, n, q + o.len, Append(acc, [p |-> i.p, q |-> q, olen |-> o.len, orel |-> o.rel, ooff |-> o.off]))
+
+\* Stage 2: every copied instruction is faithful.  A PC-relative operand must resolve, at its NEW address, to the same
+\* absolute target if the target lies outside the copied prefix, and to the IMAGE of its target instruction if it lies inside.
+QOf(lay, t) == LET K == {k \in 1..Len(lay) : lay[k].p = t} IN IF K = {} THEN -1 ELSE lay[CHOOSE k \in K : TRUE].q
+RECURSIVE Faithful(_, _, _, _, _, _, _)
+Faithful(fn, out, ins, lay, k, n, d) ==
+   IF k > Len(lay) THEN "ok"
+   ELSE LET i == ins[k] IN LET ly == lay[k] IN
+     IF i.rel = 0 THEN
+        (IF SubSeq(out, ly.q + 1, ly.q + i.len) = SubSeq(fn, i.p + 1, i.p + i.len) THEN Faithful(fn, out, ins, lay, k + 1, n, d) ELSE "V:copied-bytes-differ")
+     ELSE LET w == SubSeq(out, ly.q + 1, ly.q + ly.olen) IN
+          LET s == RelVal(w, ly.ooff + 1, ly.orel) IN
           LET inside == i.tgt >= 0 /\ i.tgt < n IN
-          LET want == IF inside THEN i.tgt - i.p - i.len
-                      ELSE (i.tgt - i.p - i.len) + d + (i.p - q) + (i.len - o.len) IN
-          LET pre_ok == \/ SubSeq(w, 1, o.off) = SubSeq(fn, i.p + 1, i.p + i.off)
-                        \/ (i.rel = 1 /\ o.rel = 4 /\ SubSeq(w, 1, o.off) = SubSeq(fn, i.p + 1, i.p + i.off - 1) \o Widen(fn[i.p + i.off])) IN
-          LET post_ok == SubSeq(w, o.off + o.rel + 1, o.len) = SubSeq(fn, i.p + i.off + i.rel + 1, i.p + i.len) IN
-          IF ~pre_ok THEN <<"V:opcode-bytes-differ", q>>
-          ELSE IF ~post_ok THEN <<"V:bytes-after-pcrel-field-lost", q>>
-          ELSE IF s # want THEN (IF q # i.p THEN <<"V:displacement-ignores-growth", q>> ELSE <<"V:displacement", q>>)
-          ELSE Walk(fn, out, ins, k + 1, n, q + o.len, d)
+          LET want == IF inside THEN QOf(lay, i.tgt) - (ly.q + ly.olen)
+                      ELSE (i.tgt - i.p - i.len) + d + (i.p - ly.q) + (i.len - ly.olen) IN
+          LET pre_ok == \/ SubSeq(w, 1, ly.ooff) = SubSeq(fn, i.p + 1, i.p + i.off)
+                        \/ (i.rel = 1 /\ ly.orel = 4 /\ SubSeq(w, 1, ly.ooff) = SubSeq(fn, i.p + 1, i.p + i.off - 1) \o Widen(fn[i.p + i.off])) IN
+          LET post_ok == SubSeq(w, ly.ooff + ly.orel + 1, ly.olen) = SubSeq(fn, i.p + i.off + i.rel + 1, i.p + i.len) IN
+          IF ~pre_ok THEN "V:opcode-bytes-differ"
+          ELSE IF ~post_ok THEN "V:bytes-after-pcrel-field-lost"
+          ELSE IF inside /\ i.tgt # 0 /\ QOf(lay, i.tgt) < 0 THEN "V:branch-into-the-middle-of-a-copied-instruction"
+          ELSE IF inside /\ i.tgt = 0 THEN Faithful(fn, out, ins, lay, k + 1, n, d)      \* target = entry: the BackBranch marker (F5), judged elsewhere
+          ELSE IF s # want THEN (IF inside THEN "V:displacement-inside-prefix" ELSE IF ly.q # i.p THEN "V:displacement-ignores-growth" ELSE "V:displacement")
+          ELSE Faithful(fn, out, ins, lay, k + 1, n, d)
 
 \* tail jump: right after the relocated prefix (position q in the bytes read back from the placeholder) there must be
 \* E9 rel32 landing on origin + n - unless nothing remains (n >= size) or the last copied instruction never falls through
@@ -76,6 +92,9 @@ TailOk(e, q, n, lastTerminal) ==
     ELSE /\ q + 5 <= Len(e.out) /\ e.out[q + 1] = 233
          /\ q + 5 + RelVal(e.out, q + 2, 4) = e.d + n
 
+\* bytes (0, 13) of the original function are overwritten by the entry jump: a branch of the part of the function
+\* that is NOT copied (and therefore still runs in place) must not target them
+Clobbered(ins, lim) == \E j \in 1..Len(ins) : ins[j].p >= lim /\ ins[j].rel # 0 /\ ins[j].tgt > 0 /\ ins[j].tgt < 13
 Check(e) ==
    LET have == Len(e.fn) IN
    LET pr == Parse(e.fn, 0, have, <<>>, have < e.size) IN
@@ -86,16 +105,19 @@ Check(e) ==
         IF e.err # "" THEN (IF SubSeq(e.out, 1, 8) # <<144, 144, 144, 144, 144, 144, 144, 144>> THEN "V:refusal-left-placeholder-modified"
                             ELSE IF into THEN "refused:branch-into-prefix" ELSE "refused:other")
         ELSE IF n0 < 0 /\ have < e.size THEN "outside-model"
-        ELSE IF into THEN "V:branch-into-prefix-accepted"
-        ELSE LET r == Walk(e.fn, e.out, ins, 1, lim, 0, e.d) IN
-             IF r[1] # "end" THEN r[1]
+        ELSE IF Clobbered(ins, lim) THEN "V:branch-into-overwritten-entry-bytes-accepted"
+        ELSE LET lres == Lay(e.out, ins, 1, lim, 0, <<>>) IN
+             IF lres.err # "" THEN lres.err
+             ELSE LET r == Faithful(e.fn, e.out, ins, lres.lay, 1, lim, e.d) IN
+             IF r # "ok" THEN r
              ELSE LET K == {k \in 1..Len(ins) : ins[k].p < lim} IN
                   LET lastI == ins[CHOOSE k \in K : \A j \in K : j <= k] IN
-                  IF ~TailOk(e, r[2], lim, lastI.ret \/ lastI.cls = "jmp") THEN "V:tail-jump"
+                  IF ~TailOk(e, lres.qend, lim, lastI.ret \/ lastI.cls = "jmp") THEN "V:tail-jump"
                   ELSE IF \E j \in 1..Len(ins) : IsBranch(ins[j]) /\ ins[j].tgt = 0 THEN "ok+branch-to-entry" ELSE "ok"
 
 Viol == {"V:refusal-left-placeholder-modified", "V:copied-bytes-differ", "V:output-truncated", "V:output-not-decodable", "V:opcode-bytes-differ",
-         "V:bytes-after-pcrel-field-lost", "V:displacement-ignores-growth", "V:displacement", "V:branch-into-prefix-accepted",
+         "V:bytes-after-pcrel-field-lost", "V:displacement-ignores-growth", "V:displacement", "V:displacement-inside-prefix",
+         "V:branch-into-the-middle-of-a-copied-instruction", "V:branch-into-overwritten-entry-bytes-accepted",
          "V:tail-jump"}
 Init == l = 1 /\ tally = <<>> /\ bad = <<>>
 Bump(t, c) == IF \E i \in 1..Len(t) : t[i][1] = c
